@@ -14,7 +14,8 @@ LEVEL = "exploration"
 RULE = (
     "cases: 1-8 distinct cases over 1-4 case arguments with uniform keys "
     "(dict spelling through combo_runner(cases=...) with the key order "
-    "rotated per dict, tuple spelling through case_runner(fn_args=...)), one "
+    "rotated per dict, tuple spelling through case_runner(fn_args=...), or "
+    "written to a crop with sow_cases, grown and reaped), one "
     "sortable value family per argument, optional sub-grid on 0-2 other "
     "arguments, result kind number/bool/str/tuple/nested list/ndarray/dict/"
     "Dataset, shuffle on/off, flat/nested, split; plus the negative case of "
@@ -124,6 +125,19 @@ def run_case(case):
         order = list(dcs[0].keys())
         with under_test("combo_runner(cases=)"):
             got = x.combo_runner(fn, combos, cases=dcs, flat=flat, **opts)
+    elif case["spelling"] == "crop":
+        # the same request written to disk in batches, grown and reaped
+        order = list(cargs)
+        tup = [tuple(c) for c in cases]
+        with core.scratch("xv-c02c-") as tmp_:
+            with under_test("crop: sow_cases / grow / reap"):
+                crop_ = x.Crop(fn=fn, name="c2", parent_dir=tmp_,
+                               batchsize=case.get("crop_bs", 2))
+                crop_.sow_cases(tuple(cargs), tup, combos=combos,
+                                constants=dict(consts) or None, verbosity=0)
+                crop_.grow_missing(verbosity=0)
+                got = crop_.reap()
+        flat, split = False, False
     else:
         order = list(cargs)
         tup = [tuple(c) for c in cases]
@@ -242,7 +256,7 @@ def strategy(draw):
         ["tuple2", "float", "bool", "str", "int", "tuple3", "tuple_arr",
          "nested", "ndarray", "dict", "dataset", "tuple_2d", "ndarray2d",
          "tuple_intarr", "intarr2d", "tuple_strarr"]))
-    spelling = draw(st.sampled_from(["dict", "dict", "tuple"]))
+    spelling = draw(st.sampled_from(["dict", "dict", "tuple", "crop"]))
     split = draw(st.booleans()) if kind.startswith("tuple") else False
     case = {"args": cs["args"], "cases": cs["cases"], "subgrid": sub,
             "constants": consts, "kind": kind, "spelling": spelling,
@@ -250,6 +264,7 @@ def strategy(draw):
             "flat": draw(st.sampled_from([False, False, True])),
             "shuffle": draw(st.sampled_from([False, False, True, 7, 1234])),
             "bare_single": draw(st.booleans()),
+            "crop_bs": draw(st.integers(1, 4)),
             "rot": draw(st.integers(0, 3))}
     if draw(st.sampled_from([False] * 19 + [True])):
         case["clash"] = draw(st.integers(1, 4))
